@@ -239,6 +239,17 @@ def run_case(ctx, case):
   except Exception:
     pass
   model = gp.build(desc)
+  if case["seed"] % 4 == 0 and not desc["kind"].startswith("stack"):
+    # a model restored through its config (clone_model, load_model) and trained further must keep every constraint
+    try:
+      import tensorflow_lattice as tfl_
+      m2 = type(model).from_config(model.get_config(), custom_objects=tfl_.premade.get_custom_objects())
+      m2.set_weights(model.get_weights())
+      model = m2
+      ctx.cls("model:rebuilt-from-config")
+    except Exception as e:
+      ctx.check("state/finite", False, "rebuilding the premade model from its config raised %s: %s" % (type(e).__name__, str(e)[:200]))
+      return True, None
   ctx.cls("kind:" + desc["kind"], "bounds:" + desc["bounds"], "output_calibration:%s" % desc["output_calibration"],
           "optimizer:" + case["optimizer"], "lr:%g" % case["lr"], "eager:%s" % case["eager"])
   for f in desc["features"]:
